@@ -133,6 +133,7 @@ class Harness:
         self.inj = {}                         # (toward side, wire id) -> dict(tx, last, tries_left, state, future)
         self.trace = []
         self.flags = set()
+        self.first_wire = {}                  # sender side -> {own id: wire id it was first translated to}
 
     # -- helpers --
     def _pick_acks(self, side, mode):
@@ -255,10 +256,14 @@ class Harness:
                 exp_to[other][a] += 1
             wire = dm.eff(o)
             if packetack and not tr_acks and not tr_body:
-                pass       # a PacketAck naming only injected packets must not be forwarded at all
+                # a PacketAck naming only injected packets must not be forwarded at all - but its ID has been translated: that wire ID is
+                # taken, the proxy's own packets have to stay above it and the translation of that ID has to stay what it was
+                dm.max_wire = max(dm.max_wire, wire)
+                self.first_wire.setdefault(side, {})[o] = wire
             else:
                 required.append({"dir": DIR_FROM[side], "pid": wire, "name": name, "reliable": reliable, "resent": resend})
                 dm.max_wire = max(dm.max_wire, wire)
+                self.first_wire.setdefault(side, {}).setdefault(o, wire)
                 if not any(p["wire"] == wire for p in self.shown[other]):
                     self.shown[other].append({"wire": wire, "kind": "real", "reliable": reliable, "orig": o})
         out.extend(self._check_emissions(exp_to, required, allow_proxy_acks=side if drop else None))
@@ -518,6 +523,16 @@ class Harness:
             raise ValueError(ev)
         if r is not None:
             self.trace.append(ev)
+            if not r:
+                # the translation of an ID is stable: whatever has happened since, an endpoint ID still maps to the wire ID it first got
+                for side, seen in self.first_wire.items():
+                    tracker = self.c.out_injections if DIR_FROM[side] == Direction.OUT else self.c.in_injections
+                    for o in list(seen)[-4:]:
+                        got = tracker.get_effective_id(o)
+                        if got != seen[o]:
+                            r = [("ids:translation-unstable", "packet %d of %s first went out (or was translated) as wire id %d, now translates to %d" % (
+                                o, side, seen[o], got))]
+                            break
         return r
 
     def classes(self):
